@@ -96,7 +96,9 @@ static void puthexs (const char *s, size_t n)
 static uint8_t pat (int rid, size_t off) { return (uint8_t) ('a' + ((size_t) rid * 7 + off) % 26); }
 
 /* ---------------------------------------------------------------- responses */
-struct cbctx { int rid; int calls; };
+struct cbctx { int rid; int calls; struct MHD_Connection *mc; int nkv; char *buf; };
+static enum MHD_Result count_iter (void *cls, enum MHD_ValueKind kind, const char *key, const char *value)
+{ (void) kind; (void) key; (void) value; (*(int *) cls)++; return MHD_YES; }
 
 static ssize_t content_cb (void *cls, uint64_t pos, char *buf, size_t max)
 {
@@ -104,6 +106,13 @@ static ssize_t content_cb (void *cls, uint64_t pos, char *buf, size_t max)
   struct resp *r = &resps[x->rid];
   size_t n, i;
   x->calls++;
+  if (x->mc)
+  { /* walking the request's element list from the content reader must keep working */
+    int n = 0;
+    MHD_get_connection_values (x->mc, (enum MHD_ValueKind) (MHD_HEADER_KIND | MHD_COOKIE_KIND | MHD_GET_ARGUMENT_KIND | MHD_FOOTER_KIND), &count_iter, &n);
+    if (1 == x->calls) x->nkv = n;
+    else if (n != x->nkv) out ("unstable rid=%d element-list-changed was=%d now=%d", x->rid, x->nkv, n);
+  }
   if (x->calls <= r->cbnr) { out ("reader rid=%d pos=%" PRIu64 " -> 0", x->rid, pos); return 0; }
   if (r->cberr_at >= 0 && pos >= (uint64_t) r->cberr_at)
   { out ("reader rid=%d pos=%" PRIu64 " -> err", x->rid, pos); return MHD_CONTENT_READER_END_WITH_ERROR; }
@@ -116,7 +125,7 @@ static ssize_t content_cb (void *cls, uint64_t pos, char *buf, size_t max)
   return (ssize_t) n;
 }
 static void content_free (void *cls) { struct cbctx *x = (struct cbctx *) cls; out ("free-cb rid=%d", x->rid); freecb_count[x->rid]++; free (x); }
-static void buf_free (void *cls) { struct cbctx *x = (struct cbctx *) cls; out ("free-cb rid=%d", x->rid); freecb_count[x->rid]++; free (x); }
+static void buf_free (void *cls) { struct cbctx *x = (struct cbctx *) cls; out ("free-cb rid=%d", x->rid); freecb_count[x->rid]++; free (x->buf); free (x); }
 
 static void upgrade_cb (void *cls, struct MHD_Connection *connection, void *req_cls,
                         const char *extra_in, size_t extra_in_size, MHD_socket sock,
@@ -128,6 +137,7 @@ static void upgrade_cb (void *cls, struct MHD_Connection *connection, void *req_
   conns[rq->c].urh = urh; conns[rq->c].usock = sock; conns[rq->c].upgraded = 1;
 }
 
+static struct MHD_Connection *cur_mc;
 static struct MHD_Response *make_resp (int rid)
 {
   struct resp *r = &resps[rid];
@@ -142,10 +152,9 @@ static struct MHD_Response *make_resp (int rid)
     if (!strcmp (r->kind, "copy")) { m = MHD_create_response_from_buffer_copy (r->size, b); free (b); }
     else if (!strcmp (r->kind, "freecb"))
     { /* buffer freed together with ctx: use with-free-callback-cls */
-      struct cbctx *x = (struct cbctx *) calloc (1, sizeof(*x)); x->rid = rid;
+      struct cbctx *x = (struct cbctx *) calloc (1, sizeof(*x)); x->rid = rid; x->buf = b;
       m = MHD_create_response_from_buffer_with_free_callback_cls (r->size, b, &buf_free, x);
-      /* note: b leaks by design of this tiny harness unless tracked */
-      (void) b;
+      if (NULL == m) { free (b); free (x); }
     }
     else { static char *keep[4096]; static int nkeep; if (nkeep < 4096) keep[nkeep++] = b;
            m = MHD_create_response_from_buffer_static (r->size, b); }
@@ -153,7 +162,7 @@ static struct MHD_Response *make_resp (int rid)
   else if (!strcmp (r->kind, "empty")) m = MHD_create_response_empty (MHD_RF_NONE);
   else if (!strcmp (r->kind, "cb-known") || !strcmp (r->kind, "cb-unknown"))
   {
-    struct cbctx *x = (struct cbctx *) calloc (1, sizeof(*x)); x->rid = rid;
+    struct cbctx *x = (struct cbctx *) calloc (1, sizeof(*x)); x->rid = rid; x->mc = cur_mc;
     m = MHD_create_response_from_callback (!strcmp (r->kind, "cb-known") ? (uint64_t) r->size : MHD_SIZE_UNKNOWN,
                                            1024, &content_cb, x, &content_free);
   }
@@ -161,13 +170,16 @@ static struct MHD_Response *make_resp (int rid)
   {
     char name[] = "/tmp/vhXXXXXX"; int fd = mkstemp (name); size_t off = !strcmp (r->kind, "fdoff") ? 3 : 0;
     unlink (name);
-    for (i = 0; i < r->size + off; i++) { char ch = (i < off) ? '#' : (char) pat (rid, i - off); if (1 != write (fd, &ch, 1)) abort (); }
+    { char *tmpb = (char *) malloc (r->size + off + 1); for (i = 0; i < r->size + off; i++) tmpb[i] = (i < off) ? '#' : (char) pat (rid, i - off);
+      if ((ssize_t) (r->size + off) != write (fd, tmpb, r->size + off)) abort (); free (tmpb); }
     m = off ? MHD_create_response_from_fd_at_offset64 (r->size, fd, off) : MHD_create_response_from_fd (r->size, fd);
   }
   else if (!strcmp (r->kind, "pipe"))
   {
     int p[2]; if (0 != pipe (p)) abort ();
-    for (i = 0; i < r->size; i++) { char ch = (char) pat (rid, i); if (1 != write (p[1], &ch, 1)) abort (); }
+    if (r->size > 4000) r->size = 4000; /* must fit the smallest pipe buffer (one page once the per-user pipe quota is used up): nobody reads while we fill it */
+    { char *tmpb = (char *) malloc (r->size + 1); for (i = 0; i < r->size; i++) tmpb[i] = (char) pat (rid, i);
+      if ((ssize_t) r->size != write (p[1], tmpb, r->size)) abort (); free (tmpb); }
     close (p[1]);
     m = MHD_create_response_from_pipe (p[0]);
   }
@@ -222,10 +234,20 @@ static enum MHD_Result snap_iter (void *cls, enum MHD_ValueKind kind, const char
   if (value) add_snap (a->rq, value, value_size + 1);
   return MHD_YES;
 }
+#ifdef MHD_ASAN_POISON_ACTIVE
+#include <sanitizer/asan_interface.h>
+#endif
 static void check_snaps (struct req *rq, const char *when)
 {
   int i;
   for (i = 0; i < rq->nsnap; i++)
+#ifdef MHD_ASAN_POISON_ACTIVE
+    /* pool-poisoning build: a string the application still holds lies in memory the
+       pool has taken back — report it instead of letting ASan abort inside the harness */
+    if (NULL != __asan_region_is_poisoned ((void *) rq->snaps[i].p, rq->snaps[i].len ? rq->snaps[i].len : 1))
+    { printf ("unstable c=%d r=%d at=%s idx=%d released-by-pool\n", rq->c, rq->r, when, i); return; }
+    else
+#endif
     if (0 != memcmp (rq->snaps[i].p, rq->snaps[i].copy, rq->snaps[i].len))
     { printf ("unstable c=%d r=%d at=%s idx=%d was=", rq->c, rq->r, when, i);
       lp_puthex (stdout, rq->snaps[i].copy, rq->snaps[i].len); printf (" now=");
@@ -286,8 +308,11 @@ static int parse_rid (const char *s) { return atoi (s + 1); }
 
 static enum MHD_Result do_reply (struct MHD_Connection *mc, struct req *rq, int rid)
 {
-  struct MHD_Response *m = make_resp (rid);
+  struct MHD_Response *m;
   enum MHD_Result q;
+  cur_mc = mc;
+  m = make_resp (rid);
+  cur_mc = NULL;
   if (NULL == m) { out ("queued c=%d r=%d rid=%d -> no-response-object", rq->c, rq->r, rid); return MHD_NO; }
   q = MHD_queue_response (mc, resps[rid].code, m);
   out ("queued c=%d r=%d rid=%d code=%u -> %d", rq->c, rq->r, rid, resps[rid].code, (int) q);
